@@ -1,6 +1,8 @@
 import Deb822Verif.Lemmas.RelEditTree
 import Deb822Verif.Lemmas.RelEditFrame
 import Deb822Verif.Lemmas.RelEditBuilt
+import Deb822Verif.Lemmas.RelEditHist
+import Deb822Verif.Lemmas.RelEditHandles
 import Deb822Verif.Props.C10
 /-!
 # C11 — editing relationship fields keeps them well-formed and matches a list model
@@ -364,6 +366,198 @@ theorem C11_built_alternatives (RA RB : List (List Lossy.Relation)) (EA EB : Lis
   refine ⟨?_, built_entryReplace RA RB EA EB r0 r f hf, built_removeRelation RA RB EA EB r0 f hf⟩
   have := built_entryPush RA RB (EA ++ r0 :: EB) r f hf
   simpa using this
+
+/-! ### histories
+
+`Op` / `run` (Spec/RelHist.lean): the operations as one type, applied one after the other, addressed
+by handle position or by index. `LOp` / `runL` / `runI` (Lemmas/RelEditHist.lean): histories addressed
+by index with operands given as lossy values, on the value (`runL`) and on the tree (`runI`). -/
+
+/-- `Shaped` is an invariant: from a parsed field (any field of the grammar) or a built one, after any
+    history of operations whose operands are shaped (parsed or built operands are), every relation has
+    at most one VERSION and one ARCHITECTURES node — so `C11_refine_setVersion_none`,
+    `C11_refine_dropConstraint` and `C11_refine_setArchitectures_nil` apply at every step -/
+theorem C11_shaped_history (f f' : Field) (ops : List Op)
+    (h0 : (∃ a : FieldA, f.kids = a.tree.children) ∨ (∃ rs, f.kids = (built rs).children))
+    (ho : ∀ op ∈ ops, op.shaped) (h : run f ops = .ok f') : Shaped f'.kids := by
+  apply shaped_run f f' ops _ ho h
+  rcases h0 with ⟨a, ha⟩ | ⟨rs, hrs⟩
+  · rw [ha]; exact tree_shaped a
+  · rw [hrs]; exact built_shaped rs
+
+/-- operands that are parsed or built are shaped -/
+theorem C11_operands_shaped :
+    (∀ (r : RelA) (tail : List Tok), relShape (r.node tail))
+    ∧ (∀ r : Lossy.Relation, relShape (toLossless r))
+    ∧ (∀ E : List Lossy.Relation, entryShaped (entryFromLossy E))
+    ∧ (∀ (s : Seg) (fl : Follow), ∀ e ∈ s.nodes fl, entryShaped e) :=
+  ⟨RelA.node_shape, relShape_built, entryShaped_built, fun s fl => seg_shaped s fl⟩
+
+/-- the tree the parser builds for the canonical text is the constructors' tree, unless a bare
+    qualified name (`a:any`) stands before ` | ` (there the parser puts the blank inside the node) -/
+theorem C11_parsed_is_built (rs : List (List Lossy.Relation)) (hv : ValidRSs rs) (hn : noInnerTail rs = true) :
+    (readRelaxed (Lossy.showRelations rs) true).1 = built rs := by
+  have h : ValidRs rs := validRs_of_validRSs hv
+  obtain ⟨e, _, _⟩ := C10_lossless (canon rs) (canon_wf rs h) true (Or.inl rfl)
+  rw [canon_str] at e
+  rw [e]
+  exact canon_tree_eq_built rs hv hn
+
+/-- re-reading after a whole history: start from the field the constructors build for a valid value
+    (or the parse of its canonical text, `C11_parsed_is_built`), apply any history of calls addressed by
+    index with valid operands. If the history runs on the list model (`runL`, no index out of range),
+    it runs on the tree without panic, the tree is the constructors' tree of the resulting value, it
+    prints that value's canonical text, and that text parses strictly, with no error, to the same
+    list model and exactly that value. -/
+theorem C11_reread_history (rs rs' : List (List Lossy.Relation)) (os : List LOp) (hv : ValidRSs rs)
+    (ho : ∀ o ∈ os, o.valid) (h : runL rs os = some rs') (f : Field) (hf : f.kids = (built rs).children) :
+    ∃ f', runI f os = .ok f' ∧ f'.root = built rs' ∧ ValidRSs rs'
+      ∧ f'.root.text = Lossy.showRelations rs'
+      ∧ (∃ t, readStrict f'.root.text = .ok t ∧ abs t = abs f'.root ∧ accEntries t = some rs') := by
+  obtain ⟨f', hr, hk⟩ := built_runI rs rs' os h f hf
+  have hv' : ValidRSs rs' := valid_runL rs rs' os hv ho h
+  have hroot : f'.root = built rs' := by
+    show Node.node .ROOT f'.kids = _
+    rw [hk]; rfl
+  obtain ⟨ht, _, habs, hacc⟩ := C11_reread_built rs' hv' false
+  refine ⟨f', hr, hroot, hv', by rw [hroot]; exact ht, ?_⟩
+  rw [hroot]
+  have hs : readStrict (built rs').text = .ok (readRelaxed (built rs').text false).1 := by
+    have h2 : ValidRs rs' := validRs_of_validRSs hv'
+    obtain ⟨e, _, _⟩ := C10_lossless (canon rs') (canon_wf rs' h2) false (Or.inr (canon_noSubstvar rs'))
+    rw [ht, ← canon_str, e]
+    exact C10_strict (canon rs') (canon_wf rs' h2) (canon_noSubstvar rs')
+  exact ⟨_, hs, habs, hacc⟩
+
+/-! ### relation nodes with the following blank inside
+
+For `a:any | b` the parser puts the blank after `a:any` INSIDE the RELATION node (relations.rs:190
+`skip_ws` after the qualifier; `C11_parsed_is_built` excludes exactly this). On such a node
+(`flagN r`: the canonical children of `r` followed by one WHITESPACE token) every setter gives the
+canonical node of the changed value again, with two exceptions that append AFTER the inner blank:
+`set_architectures(non-empty)` when the relation has neither an architecture list nor a restriction
+list, and `add_profile` when it has no restriction list — the result prints two blanks before the new
+bracket and none before the following `|` (`a:any  <x>| b`). That text is inside the grammar of C10
+(gaps are arbitrary), reads back to the expected value (`C11_inner_tail_witness`), but is not the
+canonical layout. -/
+
+/-- the setters on a relation node that carries the following blank -/
+theorem C11_inner_tail_setters (r : Lossy.Relation) :
+    (ValidRS r → (canonRel r).node (gapToks sp) = flagN r)
+    ∧ (∀ q, setArchqual (flagN r) q = flagN { r with archqual := some q })
+    ∧ (∀ c v, setVersion (flagN r) (some (c, v)) = flagN { r with version := some (c, v) })
+    ∧ setVersion (flagN r) none = flagN { r with version := none }
+    ∧ setArchitectures (flagN r) [] = flagN { r with architectures := none }
+    ∧ (∀ a as, setArchitectures (flagN r) (a :: as)
+        = if (match r.architectures with | some (_ :: _) => true | _ => false) || !r.profiles.isEmpty then
+            flagN { r with architectures := some (a :: as) }
+          else .node .RELATION (builtChildren r ++ [T .WHITESPACE " ", T .WHITESPACE " ", architecturesNode (a :: as)]))
+    ∧ (∀ g, addProfile (flagN r) g
+        = if !r.profiles.isEmpty then flagN { r with profiles := r.profiles ++ [g] }
+          else .node .RELATION (builtChildren r ++ [T .WHITESPACE " ", T .WHITESPACE " ", profilesNode g])) :=
+  ⟨flagN_canon r, flag_setArchqual r, flag_setVersion r, flag_setVersion_none r, flag_setArchitectures_nil r,
+    flag_setArchitectures r, flag_addProfile r⟩
+
+/-- the field `a:any | b, c` as parsed -/
+def tF : Field := ⟨(readRelaxed "a:any | b, c".toList true).1.children, [], []⟩
+
+/-- strict re-read of a text through the accessors -/
+def rereadL (t : Str) : Option (List (List Lossy.Relation)) :=
+  match readStrict t with
+  | .ok tr => accEntries tr
+  | .error _ => none
+
+/-- the operations that leave the canonical layout on the parse of `a:any | b, c`, what they print and
+    what a strict re-read of that text gives: the expected value each time -/
+theorem C11_inner_tail_witness :
+    -- add_profile on `a:any`
+    (tF.relEdit 0 0 (addProfile · [.Enabled "x".toList])).root.text = "a:any  <x>| b, c".toList
+    ∧ rereadL "a:any  <x>| b, c".toList = some [[⟨"a".toList, some "any".toList, none, none, [[.Enabled "x".toList]]⟩,
+        ⟨"b".toList, none, none, none, []⟩], [⟨"c".toList, none, none, none, []⟩]]
+    -- set_architectures on `a:any`
+    ∧ (tF.relEdit 0 0 (setArchitectures · ["i386".toList])).root.text = "a:any  [i386]| b, c".toList
+    ∧ rereadL "a:any  [i386]| b, c".toList = some [[⟨"a".toList, some "any".toList, some ["i386".toList], none, []⟩,
+        ⟨"b".toList, none, none, none, []⟩], [⟨"c".toList, none, none, none, []⟩]]
+    -- remove_relation of `b`
+    ∧ (tF.removeRelation 0 1).map (·.root.text) = .ok "a:any , c".toList
+    ∧ rereadL "a:any , c".toList = some [[⟨"a".toList, some "any".toList, none, none, []⟩],
+        [⟨"c".toList, none, none, none, []⟩]]
+    -- … and a push onto that entry afterwards
+    ∧ ((tF.removeRelation 0 1).map fun f => (f.entryPushAt 0 (toLossless ⟨"n".toList, none, none, none, []⟩)).root.text)
+        = .ok "a:any  | n, c".toList
+    ∧ rereadL "a:any  | n, c".toList = some [[⟨"a".toList, some "any".toList, none, none, []⟩,
+        ⟨"n".toList, none, none, none, []⟩], [⟨"c".toList, none, none, none, []⟩]]
+    -- the setters that stay canonical
+    ∧ (tF.relEdit 0 0 (setVersion · (some (.GreaterThanEqual, ⟨none, "1".toList, none⟩)))).root.text
+        = "a:any (>= 1) | b, c".toList := by
+  decide +kernel
+
+/-! ### the handles
+
+A handle is the position of its node (`ERef.at p`, `RRef.at p q`) or dead with the text its node had
+(`.gone t`). Every edit of a child list carries a position map (`Cut.remap`). -/
+
+/-- the position map of every list edit of the model is faithful: an element that survives is the
+    same node at its new position -/
+theorem C11_remap_faithful :
+    (∀ cs i entry, (relationsInsert cs i entry).Faithful cs)
+    ∧ (∀ cs entry, (relationsPush cs entry).Faithful cs)
+    ∧ (∀ cs p c, entryRemove cs p = .ok c → c.Faithful cs)
+    ∧ (∀ es rel, (entryPushIn es rel).Faithful es)
+    ∧ (∀ es q c, relationRemoveIn es q = .ok c → c.Faithful es) :=
+  ⟨faithful_relationsInsert, fun cs entry => faithful_relationsInsert cs _ entry, faithful_entryRemove,
+    faithful_entryPushIn, faithful_relationRemoveIn⟩
+
+/-- an edit of the root's children (insert / push / replace / remove_entry) with a faithful map: a
+    live entry handle reads the same node at its new position, or died with the text of its node; a
+    live relation handle keeps its entry and position inside it, or died with its text; a dead handle
+    stays dead -/
+theorem C11_handles_root (f : Field) (c : Cut) (hc : c.Faithful f.kids) :
+    (∀ r, EOk f r → EOk (f.rootEdit c) (eAfterRoot f c r) ∧ ETrack f (f.rootEdit c) r (eAfterRoot f c r))
+    ∧ (∀ r, ROk f r → ROk (f.rootEdit c) (rAfterRoot f c r) ∧ RTrackRoot f (f.rootEdit c) r (rAfterRoot f c r))
+    ∧ (f.rootEdit c).ehs = f.ehs.map (fun h => (h.1, eAfterRoot f c h.2))
+    ∧ (f.rootEdit c).rhs = f.rhs.map (fun h => (h.1, rAfterRoot f c h.2)) :=
+  ⟨root_entry_handle f c hc, root_rel_handle f c hc, rootEdit_ehs f c, rootEdit_rhs f c⟩
+
+/-- an edit of the children of the entry at `p` (Entry::push / replace, Relation::remove) with a
+    faithful map: every entry handle keeps its position (the one at `p` reads the edited entry); a
+    relation handle of another entry reads the same node; one of this entry reads the same node at its
+    new position, or died with its text -/
+theorem C11_handles_entry (f : Field) (p : Nat) (c : Cut) (lost : Nat → Option Str) (e : RNode)
+    (he : f.kids[p]? = some e) (hent : isNodeOf .ENTRY e = true) (hc : c.Faithful e.children) :
+    (∀ r, EOk f r → EOk (f.entryEdit p c lost) r)
+    ∧ (∀ r, ROk f r → ROk (f.entryEdit p c lost) (rAfterEntry f p c lost r)
+        ∧ RTrackEntry f (f.entryEdit p c lost) p lost r (rAfterEntry f p c lost r))
+    ∧ (f.entryEdit p c lost).ehs = f.ehs
+    ∧ (f.entryEdit p c lost).rhs = f.rhs.map (fun h => (h.1, rAfterEntry f p c lost h.2)) :=
+  ⟨(entry_handles f p c lost e he hent hc).1, (entry_handles f p c lost e he hent hc).2, rfl,
+    entryEdit_rhs f p c lost⟩
+
+/-- a setter moves no handle -/
+theorem C11_handles_setter (f : Field) (p q : Nat) (g : RNode → RNode) :
+    (f.relEdit p q g).ehs = f.ehs ∧ (f.relEdit p q g).rhs = f.rhs := by
+  unfold Field.relEdit
+  split
+  · split <;> exact ⟨rfl, rfl⟩
+  · exact ⟨rfl, rfl⟩
+
+/-- whole histories: when every live handle points at a node of its kind (an ENTRY child of the root,
+    a RELATION child of such an entry) before, it does after any history of operations -/
+theorem C11_handles_history (f f' : Field) (ops : List Op) (h : HOk f) (hr : run f ops = .ok f') : HOk f' :=
+  hok_run f f' ops h hr
+
+/-- what a live handle reads: the entry handle at `p` is `get_entry(i)` for `i` = the number of entries
+    before `p`, and reads entry `i` of the list model; the relation handle at `(p, q)` is
+    `get_relation(j)` of that entry for `j` = the number of relations before `q`, and reads
+    alternative `j` -/
+theorem C11_handle_reads (f : Field) :
+    (∀ p, EOk f (.at p) → ∃ e, f.kids[p]? = some e
+      ∧ nthNode .ENTRY f.kids ((f.kids.take p).countP (isNodeOf .ENTRY)) = some p
+      ∧ S.entry? (abs f.root) ((f.kids.take p).countP (isNodeOf .ENTRY)) = some (relsOf e))
+    ∧ (∀ p q, ROk f (.at p q) → ∃ e r, f.kids[p]? = some e ∧ e.children[q]? = some r
+      ∧ nthNode .RELATION (f.entryKids p) ((e.children.take q).countP (isNodeOf .RELATION)) = some q
+      ∧ (relsOf e)[(e.children.take q).countP (isNodeOf .RELATION)]? = some (recOf r)) :=
+  ⟨fun p h => entry_handle_reads f p h, fun p q h => rel_handle_reads f p q h⟩
 
 /-! ### F-C11-8 (fixed): `Entry::replace` with an operand that carries whitespace -/
 
